@@ -236,5 +236,23 @@ PROPS["C07"] = dict(
     assumptions=["resolvers are deterministic functions of the request (echo resolvers)"],
 )
 
+PROPS["C12"] = dict(
+    pkg="c12", race=True, level="exploration",
+    quick=dict(shards=8, timeout=900), thorough=dict(shards=16, timeout=3000),
+    claim="property-based testing of the SSE and multipart/mixed transports over a real TCP connection against a scripted executable "
+          "schema: rapid draws payload scripts (1-12 payloads whose strings contain newlines, 'data:', ': ping', the boundary text, 5 kB "
+          "bodies; errors; paths and labels), gaps between payloads (0, yield, 1us..3ms), keep-alive intervals 20us..10ms, aggregator "
+          "ticks 1us..10ms, four boundaries and client disconnects at a random byte; the raw body is parsed by an independent "
+          "event-stream parser / mime/multipart and must contain every payload exactly once, in order, as complete 'next' events with "
+          "strict JSON equal to the script, no comment inside an event, one final 'complete'; resp. parts of strict JSON, initial then "
+          "incremental payloads flattened in order, hasNext true on all but the last part, closing boundary exactly once and last; the "
+          "Go race detector watches the keep-alive / aggregator goroutines; after a disconnect no transport goroutine may remain parked",
+    note="timings are sampled; the race detector reports unsynchronised writers on any executed path",
+    technique="property-based testing (rapid) with independent stream parsers as oracle + Go race detector",
+    rule="evaluation = one streamed response; non-trivial = >=2 payloads and a keep-alive or aggregator tick fell between two payloads "
+         "(gap >= interval); distinct by the case",
+    assumptions=["mime/multipart from the standard library and the harness event-stream parser decide framing"],
+)
+
 # properties deliberately not claimed (reason); anything else missing from PROPS is "not built yet"
 NOT_CLAIMED = {}
